@@ -21,6 +21,9 @@ func runC04(c *core.Ctx) {
 	c.Clause("C04.2 entries <= snapshot index skipped, same-term entries kept, contiguous append, lastLogIndex/lastLogTerm cache coherent")
 	h.entrySkipAndKeep("C04.2a skip-and-keep")
 	h.storageCacheCoherence("C04.2b storage-cache")
+	h.entryTermFromLog("C04.2c entry-term")
+	// an installed snapshot stands for the log prefix: its label is the (index, term) the follower compares with
+	h.snapshotFallback("C04.2d snapshot-fallback")
 	c.Clause("C04.3/5 truncation only from the first conflicting index, never by a leader")
 	h.truncationOnlyAtConflict("C04.3 truncation")
 	// truncate-then-append relies on the segment's write position following a back removal
